@@ -5,10 +5,14 @@
      {"e":"inv","t":T,"op":"pop"|"qpop","r":[],"d":0,"pp":[],"pr":returned task|0}
      {"e":"res","t":T,"op":OP,"ret":task|0,"par":[tasks this call handed to the parent]}
      {"e":"final","slots":[..],"par":[..]}      after all threads finished; followed by quiescent pops ("qpop")
-   ("pp"/"pr" are copied from the call's own res event by the checker: prophecy values that keep Lin deterministic.)
-   Lin(t): a push moves its ring into the buffer and the tasks it handed to the parent out of it (they must be there);
-   a concurrent pop takes a task that is in the buffer, or nothing; a quiescent pop takes a task of highest priority
-   and returns NULL only from an empty buffer.  The final buffer and parent store must be the abstract ones. *)
+   ("pp"/"pr" are copied from the call's own res event by the checker: prophecy values that keep the search small.)
+   A push of several tasks is NOT atomic in hbbuffer.c (one compare-and-swap per task, nothing is promised about the
+   group), so between its inv and res a push takes one silent step per task: the task enters the buffer (Enter), a
+   task of the buffer is ejected to the parent store (Eject: it must be in the buffer at that moment - it may have
+   been popped and pushed again by others meanwhile), or a task of the ring goes straight to the parent (Overflow).
+   A concurrent pop takes a task that is in the buffer, or nothing; a quiescent pop takes a task of highest priority
+   and returns NULL only from an empty buffer.  The final buffer and parent store must be the abstract ones: every
+   pushed task is in exactly one place. *)
 EXTENDS HBBuffer, IOUtils
 CONSTANTS Thr
 VARIABLES l, pend
@@ -17,30 +21,54 @@ TraceLog == ndJsonDeserialize(IOEnv.TRACE)
 None == [op |-> "none"]
 Ev == TraceLog[l]
 IsEv(e) == l <= Len(TraceLog) /\ Ev.e = e /\ l' = l + 1
+IsPush(op) == op \in {"push_all", "push_prio"}
 
 TInit == Init /\ l = 1 /\ pend = [t \in Thr |-> None]
 TReset == IsEv("Reset") /\ buf' = {} /\ parent' = {} /\ pend' = [t \in Thr |-> None] /\ UNCHANGED hist
 TInv == /\ IsEv("inv") /\ Ev.t \in Thr /\ pend[Ev.t] = None
-        /\ pend' = [pend EXCEPT ![Ev.t] = [op |-> Ev.op, r |-> Ev.r, d |-> Ev.d, pp |-> Ev.pp, pr |-> Ev.pr, lin |-> FALSE]]
+        /\ NoDup(Ev.r) /\ NoDup(Ev.pp) /\ Elems(Ev.r) \subseteq Items
+        /\ (IsPush(Ev.op) /\ Ev.d # 0) => Elems(Ev.pp) = Elems(Ev.r)        \* pushed upstream: everything to the parent
+        /\ pend' = [pend EXCEPT ![Ev.t] = [op |-> Ev.op, pr |-> Ev.pr, pp |-> Ev.pp,
+                                           todo |-> Elems(Ev.r),              \* tasks of the ring not yet placed
+                                           ej |-> Elems(Ev.pp),               \* tasks still to be handed to the parent
+                                           lin |-> FALSE]]
         /\ UNCHANGED <<buf, parent, hist>>
-Lin(t) ==
-    /\ pend[t] # None /\ ~pend[t].lin /\ UNCHANGED <<l, hist>>
+\* ---- silent steps of a pending push ----
+Enter(t, x) == /\ pend[t] # None /\ IsPush(pend[t].op) /\ x \in pend[t].todo /\ x \notin pend[t].ej
+               /\ x \notin buf \cup parent
+               /\ buf' = buf \cup {x} /\ UNCHANGED parent
+               /\ pend' = [pend EXCEPT ![t].todo = @ \ {x}]
+Overflow(t, x) == /\ pend[t] # None /\ IsPush(pend[t].op) /\ x \in pend[t].todo \cap pend[t].ej
+                  /\ x \notin buf \cup parent
+                  /\ parent' = parent \cup {x} /\ UNCHANGED buf
+                  /\ pend' = [pend EXCEPT ![t].todo = @ \ {x}, ![t].ej = @ \ {x}]
+\* (a task of the ring may also enter the buffer first and be ejected later by the same call)
+EnterThenEject(t, x) == /\ pend[t] # None /\ IsPush(pend[t].op) /\ x \in pend[t].todo \cap pend[t].ej
+                        /\ x \notin buf \cup parent
+                        /\ buf' = buf \cup {x} /\ UNCHANGED parent
+                        /\ pend' = [pend EXCEPT ![t].todo = @ \ {x}]
+Eject(t, y) == /\ pend[t] # None /\ IsPush(pend[t].op) /\ y \in pend[t].ej /\ y \notin pend[t].todo
+               /\ y \in buf
+               /\ buf' = buf \ {y} /\ parent' = parent \cup {y}
+               /\ pend' = [pend EXCEPT ![t].ej = @ \ {y}]
+\* ---- pops ----
+LinPop(t) ==
+    /\ pend[t] # None /\ ~pend[t].lin
     /\ pend' = [pend EXCEPT ![t].lin = TRUE]
     /\ LET p == pend[t] IN
-       CASE p.op \in {"push_all", "push_prio"} ->
-              /\ NoDup(p.r) /\ Elems(p.r) \subseteq Items \ (buf \cup parent)
-              /\ NoDup(p.pp) /\ Elems(p.pp) \subseteq buf \cup Elems(p.r)
-              /\ (p.d # 0 => Elems(p.pp) = Elems(p.r))
-              /\ buf' = (buf \cup Elems(p.r)) \ Elems(p.pp)
-              /\ parent' = parent \cup Elems(p.pp)
-         [] p.op = "pop" ->
+       CASE p.op = "pop" ->
               /\ IF p.pr = 0 THEN UNCHANGED buf ELSE p.pr \in buf /\ buf' = buf \ {p.pr}
               /\ UNCHANGED parent
          [] p.op = "qpop" ->
               /\ IF buf = {} THEN p.pr = 0 /\ UNCHANGED buf ELSE p.pr \in Best(buf) /\ buf' = buf \ {p.pr}
               /\ UNCHANGED parent
-TRes == /\ IsEv("res") /\ Ev.t \in Thr /\ pend[Ev.t] # None /\ pend[Ev.t].lin
+         [] OTHER -> FALSE
+Silent(t) == /\ UNCHANGED <<l, hist>>
+             /\ \/ LinPop(t)
+                \/ \E x \in Items : Enter(t, x) \/ Overflow(t, x) \/ EnterThenEject(t, x) \/ Eject(t, x)
+TRes == /\ IsEv("res") /\ Ev.t \in Thr /\ pend[Ev.t] # None
         /\ pend[Ev.t].op = Ev.op /\ pend[Ev.t].pr = Ev.ret /\ pend[Ev.t].pp = Ev.par
+        /\ IF IsPush(Ev.op) THEN pend[Ev.t].todo = {} /\ pend[Ev.t].ej = {} ELSE pend[Ev.t].lin
         /\ pend' = [pend EXCEPT ![Ev.t] = None]
         /\ UNCHANGED <<buf, parent, hist>>
 TFinal == /\ IsEv("final") /\ \A t \in Thr : pend[t] = None
@@ -48,7 +76,7 @@ TFinal == /\ IsEv("final") /\ \A t \in Thr : pend[t] = None
           /\ \A i, j \in 1..Len(Ev.slots) : (i # j /\ Ev.slots[i] # 0) => Ev.slots[i] # Ev.slots[j]
           /\ NoDup(Ev.par) /\ Elems(Ev.par) = parent
           /\ UNCHANGED <<buf, parent, hist, pend>>
-TNext == TReset \/ TInv \/ TRes \/ TFinal \/ \E t \in Thr : Lin(t)
+TNext == TReset \/ TInv \/ TRes \/ TFinal \/ \E t \in Thr : Silent(t)
 TSpec == TInit /\ [][TNext]_tvars
 AcceptExit == (l > Len(TraceLog)) => (PrintT("VERIF-ACCEPTED") /\ TLCSet("exit", TRUE))
 NothingTwice == buf \cap parent = {}
